@@ -321,8 +321,10 @@ func (sp *Spec) build() (func(), func(x *vsched.Exec) (string, error)) {
 			vsched.GoNamed(fmt.Sprintf("prod%d", pi), func() {
 				w := writers[pi]
 				for _, it := range sp.Pipes[pi].Items {
+					vsched.HLock() // closedN / prodErr are shared by producers and consumers (no-op under the scheduler, a mutex in the race pass)
 					vsched.Note(pi)
 					allClosed := in.closedN[pi] == in.leavesN[pi]
+					vsched.HUnlock()
 					var closed bool
 					if it.Err != "" {
 						closed = w.Send(Item{}, &itemErr{it.Err})
@@ -330,7 +332,9 @@ func (sp *Spec) build() (func(), func(x *vsched.Exec) (string, error)) {
 						closed = w.Send(it, nil)
 					}
 					if allClosed && !closed && !anyFwd {
+						vsched.HLock()
 						in.prodErr = fmt.Sprintf("producer %d: every derived reader was closed before Send(%v) but Send did not report closed", pi, it)
+						vsched.HUnlock()
 					}
 					if closed {
 						break
@@ -370,10 +374,12 @@ func (sp *Spec) build() (func(), func(x *vsched.Exec) (string, error)) {
 					in.got[ci] = append(in.got[ci], v)
 				}
 				r.Close()
+				vsched.HLock()
 				for p := range consPipes[ci] {
 					in.closedN[p]++
 					vsched.Note(p)
 				}
+				vsched.HUnlock()
 				in.consDone[ci] = true
 			})
 		}
@@ -539,12 +545,14 @@ func main() {
 	c := harness.Init("C08")
 	c.Res.Rule = "scenario = stream tree template x pipe capacities x item sequences (incl. an error item) x consumer scripts (drain / read k then close / close at once); every interleaving of producer, consumer and forwarder threads at Send/Recv/Close/select/Once/atomic points is executed up to the preemption bound, plus every ready-case choice of merged selects; an execution counts as non-trivial/distinct by its scheduling signature (hash of the (thread, operation, object) sequence), counted only for scenarios with >=2 distinct signatures"
 	c.Res.Assumptions = []string{
-		"sequential consistency at synchronisation granularity (unsynchronised accesses are the business of the separate -race pass)",
+		"sequential consistency at synchronisation granularity (unsynchronised accesses are the business of the separate -race pass, next but one)",
 		"the source rewriter maps chan/select/go/sync/atomic/reflect.Select of package schema faithfully onto the vsched shim",
 		"each StreamReader end is used by one goroutine at a time (documented contract)",
+		harness.RacePassAssumption,
 	}
-	c.Res.Explanation = "stateless exhaustive exploration of the real schema package under a cooperative scheduler with iterative preemption bounding; oracle: per-consumer sequence equality against the order-preserving interleaving of the source sequences, prefix-consistency between copies, writer told 'closed' on the next send once every derived reader closed (trees without buffered forwarders), exact deadlock/leak detection from the scheduler's thread table, double close surfaces as a panic"
+	c.Res.Explanation = "stateless exhaustive exploration of the real schema package under a cooperative scheduler with iterative preemption bounding; oracle: per-consumer sequence equality against the order-preserving interleaving of the source sequences, prefix-consistency between copies, writer told 'closed' on the next send once every derived reader closed (trees without buffered forwarders), exact deadlock/leak detection from the scheduler's thread table, double close surfaces as a panic. " + harness.RacePassExplanation
 	quick := c.Quick()
+	rp := c.StartRacePass("./checks/c08") // worker 0 only: native -race build of this package, free runs of the scenario bodies
 	caps := []int{0, 1, 2}
 	shapes := []string{"0", "1", "2", "1e2"}
 	menu := []int{-1, 1, 0}
@@ -642,5 +650,6 @@ func main() {
 		}
 	}
 	c.ExploreAll()
+	rp.Collect()
 	c.Finish()
 }
